@@ -99,6 +99,7 @@ package floats
 //@ func Sum props: C07(safety) C08
 //@ writes nothing
 //@ ensures [real] forall(k, 0, len(s), s[k] >= 0) ==> result >= 0
+//@ ensures [real] result == f64.fsum(s, len(s))
 
 // ---- index and search helpers -------------------------------------------------
 
